@@ -90,6 +90,8 @@ def check_predictor(ctx, res, p, pred, est, X, fitted_raw, latent, label):
     from mellon.util import deserialize
     w = np.asarray(deserialize(pred.to_dict()["data"]["weights"]), float)
     delta = raw - fitted_raw
+    # absolute rounding floor: mu + sum(k w) and, for Exp predictors, log(exp(v)) of the fitted values
+    afloor = 64 * EPS * (1.0 + abs(mu) + float(np.max(np.abs(fitted_raw))))
     if "Cholesky" in cls:
         if est.Lp is not None:
             Lp = np.asarray(est.Lp, float)
@@ -97,7 +99,7 @@ def check_predictor(ctx, res, p, pred, est, X, fitted_raw, latent, label):
             Xb_ = np.asarray(pred.landmarks, float)
             Lp = np.linalg.cholesky(cu.kernel_np(cov, Xb_, Xb_) + jitter * np.eye(Xb_.shape[0]))
         tol = 1e3 * EPS * np.linalg.cond(Lp) ** 2 + 1e-12
-        dv = np.max(np.abs(delta)) / scale
+        dv = max(np.max(np.abs(delta)) - afloor, 0.0) / scale
         res.dev("cholesky_insample_over_tol", dv / tol)
         if dv > tol:
             res.oracle_fail(f"{label}: Cholesky-latent predictor does not reproduce the fitted values to float accuracy", p,
@@ -106,7 +108,7 @@ def check_predictor(ctx, res, p, pred, est, X, fitted_raw, latent, label):
         K = cu.kernel_np(cov, X, X)
         cond = np.linalg.cond(K + jitter * np.eye(n))
         tol = (1e3 * EPS * cond + 1e-12) * max(np.max(np.abs(K)), 1.0) * max(np.max(np.abs(w)), 1e-300) * n
-        dv = np.max(np.abs(delta + jitter * w))
+        dv = max(np.max(np.abs(delta + jitter * w)) - afloor, 0.0)
         res.dev("full_insample_identity_over_tol", dv / tol)
         if dv > tol:
             res.oracle_fail(f"{label}: full predictor in-sample error is not -jitter*w", p,
@@ -125,7 +127,7 @@ def check_predictor(ctx, res, p, pred, est, X, fitted_raw, latent, label):
         eref = -jitter * Kxu @ np.linalg.solve(M, Kuu @ c)
         condM = np.linalg.cond(M)
         tol = (1e3 * EPS * condM + 1e-10) + 10 * in_range
-        dv = np.max(np.abs(delta - eref)) / scale
+        dv = max(np.max(np.abs(delta - eref)) - afloor, 0.0) / scale
         res.dev("dtc_insample_formula_over_tol", dv / tol)
         res.dev("dtc_values_in_range_of_Kxu", in_range)
         if dv > tol and tol < 1e-3:
@@ -168,13 +170,13 @@ def check_predictor(ctx, res, p, pred, est, X, fitted_raw, latent, label):
     lo_, hi_ = co.interval(tree, Xb, Xb)
     wK = float(np.max(hi_ - lo_))
     tolm = 1e4 * EPS * cond * (1 if "Cholesky" in cls else cond ** 0.5) + 200 * wK * cond * Xb.shape[0] + 1e-10
-    dvm = np.max(np.abs(mod["mean"].reshape(-1) - raw)) / scale
+    dvm = max(np.max(np.abs(mod["mean"].reshape(-1) - raw)) - afloor, 0.0) / scale
     res.dev("model_vs_impl_over_tol", dvm / tolm)
     if dvm > tolm and tolm < 1e-3:
         res.corr_fail(f"{label}: model and implementation predictions differ", p, detail={"rel": float(dvm), "tol": float(tolm)})
     # the model's own in-sample deviation obeys the same law (ties the theorem to the observable)
     dmod = mod["mean"].reshape(-1) - fitted_raw
-    if "Cholesky" in cls and np.max(np.abs(dmod)) / scale > tolm:
+    if "Cholesky" in cls and max(np.max(np.abs(dmod)) - afloor, 0.0) / scale > tolm:
         res.corr_fail(f"{label}: model's Cholesky-latent predictor does not reproduce the fitted values", p)
 
 
